@@ -31,6 +31,17 @@ type SimBody struct {
 	Late         []string
 	CloseCount   int
 	ReadAfterEnd int
+	// onEOF runs once, when the body's clean end is first reported to a reader: net/http fills the values of announced
+	// request trailers into Request.Trailer at that moment, not before
+	onEOF func()
+}
+
+func (b *SimBody) reportedEOF() {
+	if b.onEOF != nil {
+		f := b.onEOF
+		b.onEOF = nil
+		f()
+	}
 }
 
 func (b *SimBody) deliver(p []byte) {
@@ -75,11 +86,15 @@ func (b *SimBody) Read(p []byte) (int, error) {
 		var err error
 		if len(b.chunks) == 0 && b.ended && b.eofWithData && b.endErr == io.EOF {
 			err = io.EOF
+			b.reportedEOF()
 		}
 		w.Logf("body.read", "asked=%d got=%d err=%v", len(p), n, err)
 		return n, err
 	}
 	b.ReadAfterEnd++
+	if b.endErr == io.EOF {
+		b.reportedEOF()
+	}
 	w.Logf("body.read", "asked=%d got=0 err=%v", len(p), b.endErr)
 	return 0, b.endErr
 }
